@@ -304,33 +304,54 @@ func R19(group string) Rule {
 		case "cam":
 			fn := P.MustFunc(core.PkgBttest, rpcCAM)
 			c.Fn(rpcCAM)
+			// the RPC together with the helpers it is split into (the evaluator, the applier and
+			// the row helpers are anchors of their own and are not entered)
+			anchors := map[string]bool{"filterRow": true, "applyMutations": true, "copyRow": true, "isEmpty": true, "(*table).getOrCreateRow": true, "(*table).updateRow": true}
+			scope := P.Scope(fn, func(f *ssa.Function) bool { return anchors[core.FuncName(f)] || core.PkgPathOf(f) != core.PkgBttest })
+			within := setOf(scope)
 			// (a) predicate on a copy of the stored row
-			fcalls := callsTo(fn, core.PkgBttest, "filterRow")
+			fcalls := scopeCallsTo(scope, core.PkgBttest, "filterRow")
 			if len(fcalls) != 1 {
 				c.Unknown("R19", "cam/predicate-call", fn.Pos(), "expected one filterRow call, found %d", len(fcalls))
 				return
 			}
 			fc := fcalls[0]
 			okCopy := false
+			var copiedFrom []ssa.Value // what the evaluated copy was made of, seen from the RPC
 			if cp, ok := core.Resolve(fc.Call.Args[1]).(*ssa.Call); ok && core.FuncIs(cp.Call.StaticCallee(), core.PkgBttest, "copyRow") {
-				for _, s := range rowSources(P, cp.Call.Args[0], map[ssa.Value]bool{}) {
-					if s.kind == srcReader {
-						okCopy = true
+				copiedFrom = P.Origins(cp.Call.Args[0], within)
+				okCopy = len(copiedFrom) > 0
+				for _, o := range copiedFrom {
+					fromReader := false
+					for _, s := range rowSources(P, o, map[ssa.Value]bool{}) {
+						if s.kind == srcReader {
+							fromReader = true
+						}
+					}
+					if !fromReader {
+						okCopy = false
 					}
 				}
 			}
 			c.Check(okCopy, "R19", "cam/predicate-on-copy", fc.Pos(), "the predicate runs on copyRow of the row read from the store", "the predicate filter is evaluated on the authoritative row: cells it strips are lost when the row is written back")
-			c.Check(strings.Contains(strings.Join(fieldChain(fc.Call.Args[0]), "."), "PredicateFilter"), "R19", "cam/predicate-is-request's", fc.Pos(), "the evaluated filter is req.PredicateFilter", "the evaluated filter is not the request's predicate")
+			c.Check(P.AllOrigins(fc.Call.Args[0], within, func(o ssa.Value) bool {
+				return strings.Contains(strings.Join(fieldChain(o), "."), "PredicateFilter")
+			}), "R19", "cam/predicate-is-request's", fc.Pos(), "the evaluated filter is req.PredicateFilter", "the evaluated filter is not the request's predicate")
 			// the row the decision is based on and the row that is written back come from one read
-			if ac := callsTo(fn, core.PkgBttest, "applyMutations"); len(ac) == 1 {
-				same := false
-				if cp, ok := core.Resolve(fc.Call.Args[1]).(*ssa.Call); ok && len(cp.Call.Args) == 1 {
-					same = sameRow(P, cp.Call.Args[0], ac[0].Call.Args[1])
+			acalls := scopeCallsTo(scope, core.PkgBttest, "applyMutations")
+			if len(acalls) == 1 {
+				same := len(copiedFrom) > 0
+				for _, o := range copiedFrom {
+					for _, w := range P.Origins(acalls[0].Call.Args[1], within) {
+						if !sameRow(P, o, w) {
+							same = false
+						}
+					}
 				}
-				c.Check(same, "R19", "cam/decision-and-write-on-one-read", ac[0].Pos(), "the predicate is evaluated on (a copy of) the very row read that is then mutated and stored", "the predicate is evaluated on one read of the row and the mutations are applied to another read: a write admitted in between is neither seen by the predicate nor excluded — two check-and-mutates can both act on a state only one of them could have seen")
+				c.Check(same, "R19", "cam/decision-and-write-on-one-read", acalls[0].Pos(), "the predicate is evaluated on (a copy of) the very row read that is then mutated and stored", "the predicate is evaluated on one read of the row and the mutations are applied to another read: a write admitted in between is neither seen by the predicate nor excluded — two check-and-mutates can both act on a state only one of them could have seen")
 			}
 			// emptiness ("yields at least one cell") is judged on the filtered copy
-			for i, ec := range callsTo(fn, core.PkgBttest, "isEmpty") {
+			for i, ec := range callsTo(fc.Parent(), core.PkgBttest, "isEmpty") {
 				if !core.InstrReaches(fc, ec) {
 					continue // the no-predicate branch looks at the row itself
 				}
@@ -339,12 +360,14 @@ func R19(group string) Rule {
 			// (b) selector identity
 			var sel ssa.Value
 			var selStore *ssa.Store
-			for _, b := range fn.Blocks {
-				for _, in := range b.Instrs {
-					if st, ok := in.(*ssa.Store); ok {
-						if fa, ok := st.Addr.(*ssa.FieldAddr); ok {
-							if _, f, _ := core.FieldName(fa); f == "PredicateMatched" {
-								sel, selStore = st.Val, st
+			for _, f := range scope {
+				for _, b := range f.Blocks {
+					for _, in := range b.Instrs {
+						if st, ok := in.(*ssa.Store); ok {
+							if fa, ok := st.Addr.(*ssa.FieldAddr); ok {
+								if _, fld, _ := core.FieldName(fa); fld == "PredicateMatched" {
+									sel, selStore = st.Val, st
+								}
 							}
 						}
 					}
@@ -354,54 +377,128 @@ func R19(group string) Rule {
 				c.Bad("R19", "cam/selector", fn.Pos(), "PredicateMatched is never set")
 				return
 			}
-			acalls := callsTo(fn, core.PkgBttest, "applyMutations")
 			if len(acalls) != 1 {
 				c.Unknown("R19", "cam/apply-call", fn.Pos(), "expected one applyMutations call, found %d", len(acalls))
 				return
 			}
-			muts := core.Resolve(acalls[0].Call.Args[2])
-			phi, ok := muts.(*ssa.Phi)
-			if !ok {
+			cond, okPol, found := mutationChoice(P, acalls[0].Call.Args[2])
+			if !found {
 				c.Bad("R19", "cam/selector", acalls[0].Pos(), "the applied mutation list is not a choice between true_mutations and false_mutations")
 				return
 			}
-			// the If that chooses
-			var chooser *ssa.If
-			for b := phi.Block().Idom(); b != nil; b = b.Idom() {
-				if ifi, ok := b.Instrs[len(b.Instrs)-1].(*ssa.If); ok {
-					chooser = ifi
-					break
-				}
-			}
-			okSel := chooser != nil && core.Resolve(chooser.Cond) == core.Resolve(sel)
+			okSel := cond != nil && selStore.Parent() == acalls[0].Parent() && core.Resolve(cond) == core.Resolve(sel)
 			c.Check(okSel, "R19", "cam/selector-identity", selStore.Pos(), "the value reported as predicate_matched is the very value that selects the branch", "predicate_matched and the branch selector are different values: the response can report one branch while the other is applied")
-			if chooser != nil {
-				okPol := true
-				nT, nF := 0, 0
-				for i, e := range phi.Edges {
-					pred := phi.Block().Preds[i]
-					chain := strings.Join(fieldChain(e), ".")
-					fromTrue := chooser.Block().Succs[0] == pred || chooser.Block().Succs[0].Dominates(pred)
-					fromFalse := pred == chooser.Block() || (chooser.Block().Succs[1] != phi.Block() && chooser.Block().Succs[1].Dominates(pred))
-					switch {
-					case strings.Contains(chain, "TrueMutations"):
-						nT++
-						if !fromTrue || pred == chooser.Block() {
-							okPol = false
-						}
-					case strings.Contains(chain, "FalseMutations"):
-						nF++
-						if !fromFalse && fromTrue {
-							okPol = false
-						}
-					default:
-						okPol = false
-					}
-				}
-				c.Check(okPol && nT == 1 && nF == 1, "R19", "cam/selector-polarity", chooser.Pos(), "true_mutations is chosen on the true edge, false_mutations otherwise", "the branch lists are swapped or something other than the request's two lists is applied")
-			}
+			c.Check(okPol, "R19", "cam/selector-polarity", acalls[0].Pos(), "true_mutations is chosen on the true edge, false_mutations otherwise", "the branch lists are swapped or something other than the request's two lists is applied")
 		default:
 			panic(core.Broken("unknown R19 group %q", group))
 		}
 	}}
+}
+
+// mutationChoice recognises "true_mutations if C else false_mutations" — as a φ
+// in the RPC, or as the result of a helper that makes that choice on one of its
+// parameters — and returns C as seen at the use site together with whether the
+// polarity is right.
+func mutationChoice(P *core.Program, v ssa.Value) (cond ssa.Value, polarityOK bool, found bool) {
+	v = core.Resolve(v)
+	switch x := v.(type) {
+	case *ssa.Phi:
+		var chooser *ssa.If
+		for b := x.Block().Idom(); b != nil; b = b.Idom() {
+			if ifi, ok := b.Instrs[len(b.Instrs)-1].(*ssa.If); ok {
+				chooser = ifi
+				break
+			}
+		}
+		if chooser == nil {
+			return nil, false, true
+		}
+		okPol := true
+		nT, nF := 0, 0
+		for i, e := range x.Edges {
+			pred := x.Block().Preds[i]
+			chain := strings.Join(fieldChain(e), ".")
+			fromTrue := chooser.Block().Succs[0] == pred || chooser.Block().Succs[0].Dominates(pred)
+			fromFalse := pred == chooser.Block() || (chooser.Block().Succs[1] != x.Block() && chooser.Block().Succs[1].Dominates(pred))
+			switch {
+			case strings.Contains(chain, "TrueMutations"):
+				nT++
+				if !fromTrue || pred == chooser.Block() {
+					okPol = false
+				}
+			case strings.Contains(chain, "FalseMutations"):
+				nF++
+				if !fromFalse && fromTrue {
+					okPol = false
+				}
+			default:
+				okPol = false
+			}
+		}
+		return chooser.Cond, okPol && nT == 1 && nF == 1, true
+	case *ssa.Call:
+		g := x.Call.StaticCallee()
+		if g == nil || g.Blocks == nil || g.Signature.Results().Len() != 1 {
+			return nil, false, false
+		}
+		// inside the helper: one parameter-controlled If; the true side returns TrueMutations, every other return FalseMutations
+		var chooser *ssa.If
+		var param *ssa.Parameter
+		for _, b := range g.Blocks {
+			if ifi, ok := b.Instrs[len(b.Instrs)-1].(*ssa.If); ok {
+				if pa, ok := core.Resolve(ifi.Cond).(*ssa.Parameter); ok && pa.Parent() == g {
+					if chooser != nil {
+						return nil, false, false
+					}
+					chooser, param = ifi, pa
+				}
+			}
+		}
+		if chooser == nil {
+			// a φ inside the helper
+			for _, r := range returnsIn(g) {
+				if c2, ok2, f2 := mutationChoice(P, r.Results[0]); f2 {
+					if pa, ok := core.Resolve(c2).(*ssa.Parameter); ok && pa.Parent() == g {
+						for i, q := range g.Params {
+							if q == pa && i < len(x.Call.Args) {
+								return x.Call.Args[i], ok2, true
+							}
+						}
+					}
+				}
+			}
+			return nil, false, false
+		}
+		okPol := true
+		nT, nF := 0, 0
+		trueSucc, falseSucc := chooser.Block().Succs[0], chooser.Block().Succs[1]
+		for _, r := range returnsIn(g) {
+			for _, rv := range returnValues(r.Results[0]) {
+				chain := strings.Join(fieldChain(rv), ".")
+				underTrue := core.EdgeDominates(chooser.Block(), 0, r.Block()) || trueSucc == r.Block() && len(trueSucc.Preds) == 1
+				reachableFromTrue := trueSucc == r.Block() || core.ReachableFrom(trueSucc, true)[r.Block()]
+				_ = falseSucc
+				switch {
+				case strings.Contains(chain, "TrueMutations"):
+					nT++
+					if !underTrue {
+						okPol = false
+					}
+				case strings.Contains(chain, "FalseMutations"):
+					nF++
+					if reachableFromTrue {
+						okPol = false
+					}
+				default:
+					okPol = false
+				}
+			}
+		}
+		for i, q := range g.Params {
+			if q == param && i < len(x.Call.Args) {
+				return x.Call.Args[i], okPol && nT >= 1 && nF >= 1, true
+			}
+		}
+	}
+	return nil, false, false
 }
